@@ -116,6 +116,23 @@ def love_of(b, Ysurf, gs):
     return fn, [Cx.of(v).re for v in out]
 
 
+def love_definition(b):
+    """the real find_love_cf on generic COMPLEX surface values ((re, im) pairs): k = y5 - 1, h = g y1, l = g y3 (catches a dropped or swapped real / imaginary part)"""
+    Ys = [Cx(R(f"ys{q + 1}_re"), R(f"ys{q + 1}_im")) for q in range(6)]
+    gs = R("g_surface")
+    fn = Fn(SM.FLV, "find_love_cf")
+    b.add_fn(fn)
+    out = [None, None, None]
+    ex = Exec(fn, globals_env=dict(cf_build_dblcmplx=lambda ex_, node, a_, b_: Cx(a_, b_)), opts=dict(definedness=False))
+    ex.run(dict(complex_love_numbers_ptr=out, surface_solutions_ptr=list(Ys), surface_gravity=gs))
+    want = [Ys[4] - Cx(1), Ys[0] * gs, Ys[2] * gs]
+    goals = []
+    for got, w_ in zip(out, want):
+        got = Cx.of(got)
+        goals += [sp.Eq(got.re, w_.re), sp.Eq(got.im, w_.im)]
+    b.add(Obligation(oid=f"{fn.key}::ensures:definition", fn=fn.key, clause="ensures (k, h, l) == (y5 - 1, g y1, g y3) as complex numbers, for arbitrary complex surface values", goal=sp.And(*goals), hyps=[]))
+
+
 def closed_form():
     gR = GAM * Rp
     ml = (2 * l ** 2 + 4 * l + 3) * MU / (l * rho * gR * Rp)
@@ -243,6 +260,7 @@ def build(tier="quick", seed=0):
         b.subset_exits.append(f"ODE operators: {e}")
         return b
     limits(b, ops, fns)
+    love_definition(b)
     Y, free = kelvin_family(b, ops["si"], fns["si"])
     if Y is not None and len(free) == 3:
         cs = love_closed_form(b, Y, free, fns["si"])
